@@ -35,6 +35,7 @@ const (
 	tPtr     // pointer / interface: Bool "non-nil"
 	tPtrList // slice of pointers: List Bool
 	tIntList // slice of integers: List Int
+	tMap     // map with opaque keys and values: association list List (Int × Int), newest binding first
 	tErr     // error value: String tag ("" = nil)
 	tUntyped
 )
@@ -49,6 +50,8 @@ func (t gty) lean() string {
 		return "List Bool"
 	case tIntList:
 		return "List Int"
+	case tMap:
+		return "List (Int × Int)"
 	case tErr:
 		return "String"
 	}
@@ -76,6 +79,7 @@ type tfun struct {
 	mutates   bool
 	text      string
 	skipped   []string
+	maps      map[string]bool
 	sliceBody bool // the slice is (part of) a loop body: `continue` ends it
 	inputs    map[string]string
 	chans     map[string]string
@@ -120,6 +124,9 @@ func typeOfExpr(e ast.Expr) gty {
 	case *ast.SelectorExpr:
 		if id, ok := t.X.(*ast.Ident); ok && id.Name == "time" && t.Sel.Name == "Duration" {
 			return tInt
+		}
+		if id, ok := t.X.(*ast.Ident); ok && id.Name == "uuid" && t.Sel.Name == "UUID" {
+			return tInt // an opaque identifier
 		}
 		return tPtr
 	case *ast.StarExpr:
@@ -236,6 +243,10 @@ func (e *env) useField(name string) gty {
 	if _, isChan := e.f.chans[name]; isChan {
 		ty = tInt
 		e.f.st.ftype[name] = tInt
+	}
+	if e.f.maps[name] {
+		ty = tMap
+		e.f.st.ftype[name] = tMap
 	}
 	if ty == tUnknown {
 		e.fail("field %s has a type outside the subset", name)
@@ -389,6 +400,15 @@ func (e *env) binary(v *ast.BinaryExpr) (string, gty) {
 			}
 			return "(" + a + " != " + b + ")", tBool
 		}
+		if ty == tMap {
+			// a nil map and an empty map read alike; `m == nil` is "has no entries"
+			if id, ok := v.Y.(*ast.Ident); ok && id.Name == "nil" {
+				if v.Op == token.EQL {
+					return "(" + a + ".isEmpty)", tBool
+				}
+				return "(!" + a + ".isEmpty)", tBool
+			}
+		}
 		if ty == tErr {
 			if id, ok := v.Y.(*ast.Ident); ok && id.Name == "nil" {
 				if v.Op == token.EQL {
@@ -461,6 +481,9 @@ func (e *env) call(v *ast.CallExpr) (string, gty) {
 			// make([]uint32, 0): the empty list
 			if at, ok := v.Args[0].(*ast.ArrayType); ok && at.Len == nil && len(v.Args) == 2 && e.t.p.str(at.Elt) == "uint32" && e.t.p.str(v.Args[1]) == "0" {
 				return "([] : List Int)", tIntList
+			}
+			if _, isMap := v.Args[0].(*ast.MapType); isMap {
+				return "([] : List (Int × Int))", tMap
 			}
 			// make([]*T, n): n nil pointers
 			if at, ok := v.Args[0].(*ast.ArrayType); ok && at.Len == nil && len(v.Args) == 2 {
@@ -819,6 +842,11 @@ func (e *env) assigned(stmts []ast.Stmt, out map[string]bool) {
 						out[e.rname] = true
 					}
 				}
+			case *ast.RangeStmt:
+				if f, ok := e.recvField(v.X); ok && e.f.maps[f] {
+					out["called"] = true
+					return false
+				}
 			case *ast.GoStmt:
 				if nm, ok := e.f.calls[e.t.p.str(v.Call.Fun)]; ok {
 					out[nm+"Called"] = true
@@ -850,6 +878,9 @@ func (e *env) assigned(stmts []ast.Stmt, out map[string]bool) {
 					out[e.rname] = true
 				}
 			case *ast.CallExpr:
+				if e.t.p.str(v.Fun) == "delete" {
+					out[e.rname] = true
+				}
 				if e.t.p.str(v.Fun) == "copy" && len(v.Args) == 2 {
 					if id, ok := v.Args[0].(*ast.Ident); ok {
 						out[id.Name] = true
@@ -948,6 +979,12 @@ func (e *env) assignTo(lhs ast.Expr, rhs string, rty gty, ind string) string {
 		return fmt.Sprintf("%slet %s := { %s with %s := %s }\n", ind, e.rname, e.rname, leanIdent(f), rhs)
 	}
 	if ix, ok := lhs.(*ast.IndexExpr); ok {
+		if f, ok := e.recvField(ix.X); ok && e.f.maps[f] {
+			e.useField(f)
+			k, _ := e.expr(ix.Index)
+			fl := leanIdent(f)
+			return fmt.Sprintf("%slet %s := { %s with %s := (%s, %s) :: %s.%s.filter (fun kv => kv.1 != %s) }\n", ind, e.rname, e.rname, fl, k, rhs, e.rname, fl, k)
+		}
 		if f, ok := e.recvField(ix.X); ok && e.useField(f) == tPtrList {
 			is, _ := e.expr(ix.Index)
 			return fmt.Sprintf("%slet %s := { %s with %s := %s.%s.set (Int.toNat %s) %s }\n", ind, e.rname, e.rname, leanIdent(f), e.rname, leanIdent(f), is, rhs)
@@ -1105,6 +1142,16 @@ func (e *env) block(stmts []ast.Stmt, fall string, ind string) string {
 				sb.WriteString(fmt.Sprintf("%slet ev := %q\n", ind, e.t.p.str(call.Args[0])+"|"+msg))
 				continue
 			}
+			if txt == "delete" && len(call.Args) == 2 {
+				if f, ok := e.recvField(call.Args[0]); ok && e.f.maps[f] {
+					e.useField(f)
+					k, _ := e.expr(call.Args[1])
+					fl := leanIdent(f)
+					sb.WriteString(fmt.Sprintf("%slet %s := { %s with %s := %s.%s.filter (fun kv => kv.1 != %s) }\n", ind, e.rname, e.rname, fl, e.rname, fl, k))
+					continue
+				}
+				e.fail("delete from %s", e.t.p.str(call.Args[0]))
+			}
 			if txt == "copy" && len(call.Args) == 2 {
 				// copy(dst, src) on slices of pointers: the first min(len dst, len src) elements
 				did, ok := call.Args[0].(*ast.Ident)
@@ -1240,6 +1287,28 @@ func (e *env) block(stmts []ast.Stmt, fall string, ind string) string {
 			if v.Key == nil || e.t.p.str(v.Key) != "_" || v.Value == nil {
 				e.fail("range statement shape")
 			}
+			if f, ok := e.recvField(v.X); ok && e.f.maps[f] {
+				// `for _, fn := range r.m { fn(args...) }`: every value is called once (Go picks the order; the list order
+				// stands for it) - captured as the list `called`
+				vn := e.t.p.str(v.Value)
+				if len(v.Body.List) != 1 {
+					e.fail("range over a map: body")
+				}
+				es, ok := v.Body.List[0].(*ast.ExprStmt)
+				if !ok {
+					e.fail("range over a map: body")
+				}
+				c0, ok := es.X.(*ast.CallExpr)
+				if !ok || e.t.p.str(c0.Fun) != vn {
+					e.fail("range over a map: body is not a call of the value")
+				}
+				if _, ok := e.vars["called"]; !ok {
+					e.fail("range over a map without a `called` output")
+				}
+				e.useField(f)
+				sb.WriteString(fmt.Sprintf("%slet called := called ++ %s.%s.map (fun kv => kv.2)\n", ind, e.rname, leanIdent(f)))
+				continue
+			}
 			lst, lty := e.expr(v.X)
 			if lty != tIntList {
 				e.fail("range over %s", e.t.p.str(v.X))
@@ -1339,6 +1408,9 @@ func (e *env) lhsType(x ast.Expr) gty {
 		return e.useField(f)
 	}
 	if ix, ok := x.(*ast.IndexExpr); ok {
+		if f, ok := e.recvField(ix.X); ok && e.f.maps[f] {
+			return tInt
+		}
 		if f, ok := e.recvField(ix.X); ok && e.useField(f) == tPtrList {
 			return tPtr
 		}
@@ -1578,6 +1650,8 @@ type tspec struct {
 	sliceAt                string            // like sliceFrom, but the first statement (anywhere in the body, also inside closures and select arms) whose text starts with this
 	inputs                 map[string]string // source text of an expression -> "name:type" (int|bool): an input of the translated code
 	chanCap                map[string]string // field that is a `chan struct{}` -> the field holding its capacity: the channel is the number of tokens in it
+	extraOut               []string          // extra results of a whole-function translation: "name:list"
+	mapFields              []string          // fields that are maps: association lists (key, value), keys and values opaque integers
 	loopBody               bool              // the slice lies in a loop body (`continue` allowed)
 	sliceHas               string            // ... and contains this
 	captureCalls           map[string]string // text of a called function -> name: the statement `f(x)` sets <name>Called := true, <name>Arg := x
@@ -1595,7 +1669,11 @@ func (t *translator) translate(sp tspec) (res *tfun, why string) {
 	if st == nil {
 		return nil, "receiver struct not found"
 	}
-	f := &tfun{lean: sp.lean, decl: fd, recv: sp.recv, st: st, opaque: sp.opaque, view: sp.view, inputs: sp.inputs, capture: sp.captureEmit, calls: sp.captureCalls, chans: sp.chanCap, sliceBody: sp.loopBody}
+	mapsSet := map[string]bool{}
+	for _, m := range sp.mapFields {
+		mapsSet[m] = true
+	}
+	f := &tfun{maps: mapsSet, lean: sp.lean, decl: fd, recv: sp.recv, st: st, opaque: sp.opaque, view: sp.view, inputs: sp.inputs, capture: sp.captureEmit, calls: sp.captureCalls, chans: sp.chanCap, sliceBody: sp.loopBody}
 	e := &env{t: t, f: f, vars: map[string]gty{}, lnames: map[string]string{}}
 	e.rname = fd.Recv.List[0].Names[0].Name
 	defer func() {
@@ -1729,6 +1807,12 @@ func (t *translator) translate(sp tspec) (res *tfun, why string) {
 		}
 	}
 	if sp.sliceAt == "" {
+		for _, o := range sp.extraOut {
+			nm := o[:strings.Index(o, ":")]
+			e.setVar(nm, tIntList)
+			f.resNames = append(f.resNames, nm)
+			f.resTypes = append(f.resTypes, tIntList)
+		}
 		for _, nm := range sortedValues(sp.captureCalls) {
 			e.setVar(nm+"Called", tBool)
 			e.setVar(nm+"Arg", tInt)
@@ -1772,6 +1856,10 @@ func (t *translator) translate(sp tspec) (res *tfun, why string) {
 		}
 		for _, nm := range f.resNames {
 			zero := "0"
+			if e.vars[nm] == tIntList {
+				body += fmt.Sprintf("  let %s : List Int := []\n", e.lnames[nm])
+				continue
+			}
 			switch e.vars[nm] {
 			case tBool, tPtr:
 				zero = "false"
@@ -1951,6 +2039,10 @@ func transAll(v1, v2 *pkg) string {
 		{file: "batcher.go", recv: "Batcher", name: "Start", lean: "v1_startHead", view: "_cfg", until: "capacityTimer :=",
 			inputs: map[string]string{"r.phase": "phase:int", "r.buffer == nil": "noBuffer:bool"}},
 		{file: "batcher.go", recv: "Batcher", name: "Enqueue", lean: "v1_enqueueAdmit", until: "r.incTarget", opaque: true, view: "_cfg"},
+		{file: "eventer.go", recv: "eventer", name: "AddListener", lean: "v1_ev_AddListener", mapFields: []string{"listeners"},
+			inputs: map[string]string{"uuid.New()": "newId:int", "fn": "fn:int"}},
+		{file: "eventer.go", recv: "eventer", name: "RemoveListener", lean: "v1_ev_RemoveListener", mapFields: []string{"listeners"}},
+		{file: "eventer.go", recv: "eventer", name: "emit", lean: "v1_ev_emit", mapFields: []string{"listeners"}, extraOut: []string{"called:list"}},
 		{file: "operation.go", recv: "Operation", name: "MakeAttempt", lean: "v1_op_MakeAttempt"},
 		{file: "operation.go", recv: "Operation", name: "Attempt", lean: "v1_op_Attempt"},
 		{file: "operation.go", recv: "Operation", name: "Cost", lean: "v1_op_Cost"},
@@ -2001,6 +2093,10 @@ func transAll(v1, v2 *pkg) string {
 		{file: "batcher.go", recv: "batcher", name: "Start", lean: "v2_startHead", view: "_cfg", until: "capacityTimer :=",
 			inputs: map[string]string{"r.phase": "phase:int"}},
 		{file: "batcher.go", recv: "batcher", name: "Enqueue", lean: "v2_enqueueAdmit", until: "r.incTarget", opaque: true, view: "_cfg"},
+		{file: "eventer.go", recv: "EventerBase", name: "AddListener", lean: "v2_ev_AddListener", mapFields: []string{"listeners"},
+			inputs: map[string]string{"uuid.New()": "newId:int", "fn": "fn:int"}},
+		{file: "eventer.go", recv: "EventerBase", name: "RemoveListener", lean: "v2_ev_RemoveListener", mapFields: []string{"listeners"}},
+		{file: "eventer.go", recv: "EventerBase", name: "Emit", lean: "v2_ev_Emit", mapFields: []string{"listeners"}, extraOut: []string{"called:list"}},
 		{file: "operation.go", recv: "operation", name: "MakeAttempt", lean: "v2_op_MakeAttempt"},
 		{file: "operation.go", recv: "operation", name: "Attempt", lean: "v2_op_Attempt"},
 		{file: "operation.go", recv: "operation", name: "Cost", lean: "v2_op_Cost"},
